@@ -180,3 +180,33 @@ V('C14', 'recid-search-uncompressed-compare', KEY, 'if cec_key.get_pubkey() == p
 V('C14', 'r-not-padded', KEY, "r_val = ((b'\\x00' * 32) + r_val)[-32:]", "r_val = r_val[-32:]", 'C14.S1', scope='CECKey.sign_compact')
 V('C14', 'verify-hashes-text-not-digest', SIGMSG, 'hash = message.GetHash()', 'hash = message.serialize()[:32]', 'C14.V1', scope='VerifyMessage')
 V('C14', 'length-check-64', KEY, 'if len(sig) != 65:', 'if len(sig) < 64:', 'C14.L2', scope='CPubKey.recover_compact')
+
+# ------------------------------------------------------------------------------------------------ C06
+V('C06', 'min-not-binary', EVAL, "    OP_MIN,\n    OP_MAX,\n}", "    OP_MAX,\n}", 'C06.S1')
+V('C06', 'mul-not-disabled', SCRIPT, 'OP_OR, OP_XOR, OP_2MUL, OP_2DIV, OP_MUL, OP_DIV, OP_MOD,', 'OP_OR, OP_XOR, OP_2MUL, OP_2DIV, OP_DIV, OP_MOD,', ['C06.D2', 'C06.D1'])
+V('C06', 'op16-counted', EVAL, 'if sop > OP_16:', 'if sop >= OP_16:', 'C06.D1', scope='_EvalScript')
+V('C06', '2over-copies-wrong-pair', EVAL, "                v1 = stack[-4]\n                v2 = stack[-3]\n                stack.append(v1)", "                v1 = stack[-3]\n                v2 = stack[-2]\n                stack.append(v1)", 'C06.S1', scope='_EvalScript')
+V('C06', 'revert-F3-within', EVAL, "                if v:\n                    stack.append(b\"\\x01\")\n                else:\n                    stack.append(b\"\")", "                if v:\n                    stack.append(b\"\\x01\")\n                else:\n                    stack.append(b\"\\x00\")", 'C06.B1', scope='_EvalScript')
+V('C06', 'revert-F12-continue', EVAL, "            elif fExec:\n                stack.append(sop_data)\n", "            elif fExec:\n                stack.append(sop_data)\n                continue\n", 'C06.L2', scope='_EvalScript')
+V('C06', 'opcount-limit-200', SCRIPT, 'MAX_SCRIPT_OPCODES = 201', 'MAX_SCRIPT_OPCODES = 200', 'C06.L1')
+V('C06', 'sub-operands-swapped', EVAL, 'bn = bn1 - bn2', 'bn = bn2 - bn1', 'C06.O1', scope='_BinOp')
+V('C06', 'sha256-uses-sha1', EVAL, 'stack.append(hashlib.sha256(stack.pop()).digest())', 'stack.append(hashlib.sha1(stack.pop()).digest())', 'C06.H1', scope='_EvalScript')
+V('C06', 'within-inclusive-upper', EVAL, 'v = (bn2 <= bn1) and (bn1 < bn3)', 'v = (bn2 <= bn1) and (bn1 <= bn3)', 'C06.O1', scope='_EvalScript')
+V('C06', 'tuck-position', EVAL, 'stack.insert(len(stack) - 2, vch)', 'stack.insert(len(stack) - 1, vch)', 'C06.S1', scope='_EvalScript')
+V('C06', 'ifdup-always', EVAL, "                if _CastToBool(vch):\n                    stack.append(vch)", "                stack.append(vch)", 'C06.S1', scope='_EvalScript')
+V('C06', 'nop-ignores-discourage-flag', EVAL, "                if SCRIPT_VERIFY_DISCOURAGE_UPGRADABLE_NOPS in flags:\n                    err_raiser(EvalScriptError, \"%s reserved for soft-fork upgrades\" % OPCODE_NAMES[sop])\n                else:\n                    pass", "                pass", 'C06.D1', scope='_EvalScript')
+V('C06', 'verif-not-always-fail', SCRIPT, 'DISABLED_OPCODES = frozenset((OP_VERIF, OP_VERNOTIF,', 'DISABLED_OPCODES = frozenset((OP_VERNOTIF,', ['C06.D2', 'C06.D1'])
+V('C06', 'p2sh-without-push-only', EVAL, "        if not scriptSig.is_push_only():\n            raise VerifyScriptError(\"P2SH scriptSig not is_push_only()\")\n", "", 'C06.V1', scope='VerifyScript')
+V('C06', 'p2sh-stack-not-restored', EVAL, "        stack = stackCopy\n", "", 'C06.V1', scope='VerifyScript')
+V('C06', 'cleanstack-allows-empty', EVAL, 'if len(stack) != 1:', 'if len(stack) > 1:', 'C06.V1', scope='VerifyScript')
+V('C06', 'ripemd-table-entry', RIPEMD, "    7, 4, 13, 1, 10, 6, 15, 3, 12, 0, 9, 5, 2, 14, 11, 8,", "    7, 4, 13, 1, 10, 6, 15, 3, 12, 0, 9, 5, 2, 14, 8, 11,", 'C06.H1')
+V('C06', 'stack-limit-1001', EVAL, 'MAX_STACK_ITEMS = 1000', 'MAX_STACK_ITEMS = 1001', 'C06.L1')
+V('C06', 'num-size-by-value', EVAL, 'if len(s) > MAX_NUM_SIZE:', 'if v.bit_length() >= 8 * MAX_NUM_SIZE:', 'C06.L1', scope='_CastToBigNum')
+V('C06', 'nulldummy-cast-to-bool', EVAL, "if stack[-1] != b'':", "if _CastToBool(stack[-1]):", 'C06.L1', scope='_CheckMultiSig')
+V('C06', 'multisig-key-reuse', EVAL, "        ikey += 1\n        keys_count -= 1\n\n        if sigs_count > keys_count:", "        else:\n            ikey += 1\n            keys_count -= 1\n\n        if sigs_count > keys_count:", 'C06.M1', scope='_CheckMultiSig')
+V('C06', 'keys-limit-21', EVAL, 'if keys_count < 0 or keys_count > 20:', 'if keys_count < 0 or keys_count > 21:', 'C06.L1', scope='_CheckMultiSig')
+V('C06', 'else-in-unexecuted-branch-skipped', EVAL, 'elif fExec or (OP_IF <= sop <= OP_ENDIF):', 'elif fExec or (OP_IF <= sop <= OP_NOTIF) or sop == OP_ENDIF:', 'C06.D1', scope='_EvalScript')
+V('C06', 'script-size-limit-inclusive', EVAL, 'if len(scriptIn) > MAX_SCRIPT_SIZE:', 'if len(scriptIn) >= MAX_SCRIPT_SIZE:', 'C06.L1', scope='_EvalScript')
+V('C06', 'max-selects-smaller', EVAL, "        if bn1 > bn2:\n            bn = bn1\n        else:\n            bn = bn2", "        if bn1 > bn2:\n            bn = bn2\n        else:\n            bn = bn1", 'C06.O1', scope='_BinOp')
+V('C06', 'opcode-renumbered', SCRIPT, 'OP_NIP = CScriptOp(0x77)', 'OP_NIP = CScriptOp(0x78)', 'C06.D2')
+V('C06', 'hash160-arm-uses-hash256', EVAL, 'stack.append(bitcoin.core.serialize.Hash160(stack.pop()))', 'stack.append(bitcoin.core.serialize.Hash(stack.pop()))', 'C06.H1', scope='_EvalScript')
